@@ -1,0 +1,5 @@
+//go:build !verif
+
+package connectconformance
+
+func verifOverride(_ []string) processStarter { return nil }
